@@ -1134,6 +1134,30 @@ def r6(cx):
     miss = [c for c in H.calls(gh['body']) if c.get('k') == 'mcall' and c.get('name') == 'ok_or' and c.get('a')
             and unwrap(c['a'][0]).get('def') == ERRNO + '::ENOENT' and unwrap(c['recv']).get('k') == 'mcall'
             and unwrap(c['recv']).get('name') == 'get' and 'HashMap' in callee(unwrap(c['recv'])) and _propagated(c, gpar, gh)]
+    if not miss:
+        # `let Some(child) = children.get(name) else { return Err(ENOENT) }` / `match .. { None => return Err(ENOENT) }`: decided on the MIR
+        gb = [b for k, b in F.bodies.items() if k.startswith(get_fn) and 'main' in k]
+        for mb in gb:
+            mdu = Q.DefUse(mb)
+            gets = {t['dest']['l'] for _, t in mb.calls() if re.search(r'HashMap::<.*>::get$', pp.callee(t))}
+            nexts = {blk for blk, t in mb.calls() if re.search(r'Iterator>::next$', pp.callee(t))}
+            for u in sorted(mb.live_blocks()):
+                ec = Q.edge_condition(F, mb, mdu, u)
+                if not ec or ec[0]['k'] != 'discr' or ec[0]['pl'].get('p'):
+                    continue
+                src = mdu.origin({'cp': {'l': ec[0]['pl']['l']}})
+                if not (ec[0]['pl']['l'] in gets or (src['k'] == 'call' and src['t']['dest']['l'] in gets)):
+                    continue
+                for tgt, labs in ec[1].items():
+                    if ('variant', 'None') not in labs:
+                        continue
+                    region = mb.reachable(tgt, removed=nexts)
+                    enoent = any(st['k'] == 'assign' and any(isinstance(o, dict) and str(o.get('cdef') or '').endswith('::ENOENT')
+                                                              for o in ([st['rv'].get('o')] if st['rv'].get('o') else []) + (st['rv'].get('ops') or []))
+                                 for b_ in region for st in mb.blocks[b_]['s'])
+                    pushes = any(re.search(r'Vec::<T, A>::push$', pp.callee(t)) for b_, t in mb.calls() if b_ in region)
+                    if enoent and not pushes:
+                        miss = [True]
     cx.site('FileSystem::get: missing directory entry => ENOENT: %s' % bool(miss))
     cx.cellcount(1)
     if not miss:
@@ -1531,8 +1555,18 @@ def r14(cx):
         for blk, t in Q.find_calls(b, [P + 'raise_signal']):
             ok = False
             for org, lab, e in Q.implied_conditions(F, b, du, blk):
+                org, lab = Q.peel_not(du, org, lab)
                 if org['k'] == 'call' and pp.callee(org['t']).startswith(P) and reads_reaped_state(pp.callee(org['t'])):
                     ok = True
+                # `processes.get_mut(pid).filter(|p| !p.has_been_reaped())` + `let Some(p) = .. else`: the test sits in the closure
+                if org['k'] == 'discr' and lab == ('variant', 'Some') and not org['pl'].get('p'):
+                    src = du.origin({'cp': {'l': org['pl']['l']}})
+                    if src['k'] == 'call' and re.search(r'Option::<T>::(filter|take_if)$', pp.callee(src['t'])):
+                        for a in src['t']['a'][1:]:
+                            ao = du.origin(a)
+                            cb = F.bodies.get(ao['rv'].get('def')) if ao.get('k') == 'agg' else None
+                            if cb is not None and any(pp.callee(ct).startswith(P) and reads_reaped_state(pp.callee(ct)) for _, ct in cb.calls()):
+                                ok = True
             cx.site('%s: raise_signal at %s behind a has-it-been-awaited test: %s' % (b.fn, b.loc(t), ok))
             if not ok:
                 cx.violation(b.root, 'signal-to-reaped-process', 'kill() delivers a signal to (and answers success for) a simulated process '
